@@ -238,6 +238,33 @@ print(json.dumps(dump(cfg), default=repr))
 '''
 
 
+class OpenSpy:
+    """records which of the candidate key files are opened while the block runs"""
+
+    def __init__(self, cands):
+        self.cands = set(cands)
+        self.opened = []
+
+    def __enter__(self):
+        import builtins
+        self.real = builtins.open
+
+        def spy(file, *a, **k):
+            try:
+                fp = os.path.abspath(os.fspath(file))
+            except TypeError:
+                fp = None
+            if fp in self.cands and fp not in self.opened:
+                self.opened.append(fp)
+            return self.real(file, *a, **k)
+        builtins.open = spy
+        return self
+
+    def __exit__(self, *a):
+        import builtins
+        builtins.open = self.real
+
+
 def plain_dump(cfg):
     from cincoconfig.core import Config
     out = {}
@@ -297,6 +324,7 @@ def one_case(ctx, res, i, tmp, home, reqs, pend, sessions):
     schema, cfg, built, log = live
     done = []
     used_everywhere = set()
+    last_expect_used = set()
     n_marks = 0
     distinct_keys_in_tree = set()
     deep = False
@@ -336,6 +364,7 @@ def one_case(ctx, res, i, tmp, home, reqs, pend, sessions):
             res.violate("C03:other-key-file-opened", "serialising opened a key file that no configuration holding a secret is entitled to",
                         dict(case, at=n, opened=sorted(opened), entitled=sorted(expect_used)))
         used_everywhere |= expect_used | opened
+        last_expect_used = set(expect_used)
     created = set(os.listdir(kdir)) - before
     stray = {c for c in created if os.path.join(kdir, c) not in used_everywhere}
     if stray:
@@ -354,10 +383,14 @@ def one_case(ctx, res, i, tmp, home, reqs, pend, sessions):
     if not any(a in lost for a in own):
         for fmt in rng.sample(FORMATS, 2):
             try:
-                doc = cfg.dumps(format=fmt)
+                with OpenSpy(keyfiles + [default]) as spy_d:
+                    doc = cfg.dumps(format=fmt)
             except Exception as e:  # noqa
                 res.violate("C03:dumps-raised", "dumps raised %s" % type(e).__name__, dict(case, fmt=fmt, error=str(e)[:200]))
                 continue
+            if not set(spy_d.opened) <= last_expect_used:
+                res.violate("C03:other-key-file-opened", "dumps opened a key file that no configuration holding a secret is entitled to",
+                            dict(case, fmt=fmt, opened=sorted(spy_d.opened), entitled=sorted(last_expect_used)))
             res.hist["doc:" + fmt] += 1
             leaked = [p for p in plains if p.encode() in doc]
             secret_plains = [m.split("|", 2)[2] for _, _, m in marks(sk, impl["steps"][-1]["out"].get("raw", {}) if isinstance(impl["steps"][-1]["out"], dict) else {}) if isinstance(m, str) and m.startswith("ENC|")]
@@ -371,7 +404,11 @@ def one_case(ctx, res, i, tmp, home, reqs, pend, sessions):
                     for p in path:
                         tgt = tgt._data.get(p)
                     tgt._key_filename = f
-                fresh.loads(doc, format=fmt)
+                with OpenSpy(keyfiles + [default]) as spy_l:
+                    fresh.loads(doc, format=fmt)
+                if not f19_expected and not set(spy_l.opened) <= last_expect_used:
+                    res.violate("C03:other-key-file-opened", "loads opened a key file that no configuration holding a secret is entitled to",
+                                dict(case, fmt=fmt, opened=sorted(spy_l.opened), entitled=sorted(last_expect_used)))
                 back = plain_dump(fresh)
                 ok = json.dumps(norm_secrets(back), sort_keys=True, default=repr) == json.dumps(norm_secrets(held), sort_keys=True, default=repr)
                 err = None
@@ -387,6 +424,9 @@ def one_case(ctx, res, i, tmp, home, reqs, pend, sessions):
                     fh.write(doc)
                 sessions.append(1)
                 new_session(ctx, res, case, {"home": home, "tmp": tmp, "schema": sk, "assign": assign, "doc": path, "fmt": fmt}, held, tmp, home)
+    if default not in used_everywhere and os.path.exists(default) and not f19_expected and not any(a in lost for a in own):
+        res.violate("C03:other-key-file-created", "the default key file was created although no configuration holding a secret falls back to it",
+                    dict(case, default=default))
     vals = H.op_values(ops) + H.schema_values(sk)
     reqs.append({"cmd": "cfg.run", "schema": C.wire_schema(sk, tmp),
                  "world": {"environ": [], "env": H.schema_env(sk, vals, tmp, key=bytes(range(32)), iv=P.tape(16), salts=P.SALTS)},
